@@ -90,7 +90,11 @@ func concScenario(spec *concSpec) *Scenario {
 			callbacks := 0
 			prog := spec.prog
 			has := func(x string) bool { return strings.Contains(prog, x) }
-			if has("W1b") {
+			if has("W1m") {
+				// more than a congestion window of data: a chunk queued behind something else
+				// is not necessarily sent in the same round
+				writer("W1", sa1, 8, 300)
+			} else if has("W1b") {
 				// blocking-write mode, nobody reads: the writer ends up waiting for the window
 				writer("W1", sa1, 6, 500)
 			} else if has("W1") {
@@ -246,7 +250,7 @@ func concScenario(spec *concSpec) *Scenario {
 						return false
 					}
 					for w, r := range map[string]string{"W1": "R1", "W2": "R2", "Wb": "Ra"} {
-						if has(w) && (has(r) || (r == "R1" && has("De"))) && !has("Xs") && len(read[r])+len(read[r+"x"]) < len(wrote[w]) {
+						if has(w) && (has(r) || (r == "R1" && has("De"))) && len(read[r])+len(read[r+"x"]) < len(wrote[w]) {
 							return false
 						}
 					}
@@ -283,7 +287,9 @@ func concScenario(spec *concSpec) *Scenario {
 				}
 				got := append(append([]string(nil), read[r]...), read[r+"x"]...)
 				want := wrote[w]
-				if teardown == "" && !(w == "W1" && has("Xs")) {
+				// (a write that returned success while the stream was being closed concurrently was
+				// accepted before the close: it is delivered ahead of the end-of-stream)
+				if teardown == "" {
 					if len(got) != len(want) {
 						m.Failf("delivery", "program %s: %s delivered %d of %d accepted messages", prog, w, len(got), len(want))
 						continue
@@ -388,7 +394,7 @@ func lockCycle(edges map[string]bool) []string {
 func propC20(j *Job) {
 	progs := []string{
 		"W1 W2 R1 R2", "W1 Q R1", "W1 R1 Xs", "W1 R1 Xh", "W1 R1 Xc", "W1 R1 Xa", "R1 R1x W1 Xcb", "W1 R1 D", "W1 Wb R1 Ra",
-		"Xc Xcb W1", "Xa Xc R1", "Xh Xhb W1 Wb R1 Ra", "W1 Q Xs R1", "R1 R1x Xa", "W1 Xs De", "W1 Xa De", "Xcb De",
+		"Xc Xcb W1", "Xa Xc R1", "Xh Xhb W1 Wb R1 Ra", "W1 Q Xs R1", "R1 R1x Xa", "W1 Xs De", "W1 Xa De", "Xcb De", "W1m R1 Xs",
 	}
 	modes := stdModes()
 	for mi, mode := range modes {
